@@ -140,6 +140,7 @@ pub struct RealRun {
     pub stdout: Vec<u8>,
     pub stderr: Vec<u8>,
     pub after: Tree,
+    pub root: String,
 }
 
 pub fn run_real(real_bin: &Path, fakegen: &Path, scenario: &Scenario, tag: &str, n: u64) -> Result<RealRun, String> {
@@ -189,7 +190,7 @@ pub fn run_real(real_bin: &Path, fakegen: &Path, scenario: &Scenario, tag: &str,
             Some(c) => Exit::Code(c),
             None => Exit::Signal(out.status.signal().unwrap_or(0)),
         };
-        Ok(RealRun { exit, stdout: out.stdout, stderr: out.stderr, after: snapshot(&root) })
+        Ok(RealRun { exit, stdout: out.stdout, stderr: out.stderr, after: snapshot(&root), root: root.to_string_lossy().into_owned() })
     })();
     remove_run_dir(&dir);
     r
@@ -242,16 +243,20 @@ pub fn run(ws: &Ws, exec: &Executor, count: u64, seed: u64, workers: usize) -> R
                     }
                 };
                 let mut diffs = Vec::new();
+                // where each execution's world lived is not part of the behaviour
+                let norm = |b: &[u8], root: &str| -> Vec<u8> { String::from_utf8_lossy(b).replace(root, "@ROOT@").into_bytes() };
+                let (sim_out, sim_err) = (norm(&sim.stdout, &sim.root), norm(&sim.stderr, &sim.root));
+                let (real_out, real_err) = (norm(&realr.stdout, &realr.root), norm(&realr.stderr, &realr.root));
                 if sim.exit != realr.exit {
                     diffs.push(format!("exit {:?} vs {:?}", sim.exit, realr.exit));
                 }
-                if sim.stderr != realr.stderr {
-                    let a = String::from_utf8_lossy(&sim.stderr).into_owned();
-                    let b = String::from_utf8_lossy(&realr.stderr).into_owned();
+                if sim_err != real_err {
+                    let a = String::from_utf8_lossy(&sim_err).into_owned();
+                    let b = String::from_utf8_lossy(&real_err).into_owned();
                     let d = a.lines().zip(b.lines()).find(|(x, y)| x != y).map(|(x, y)| format!("'{x}' vs '{y}'")).unwrap_or_else(|| format!("{} vs {} lines", a.lines().count(), b.lines().count()));
                     diffs.push(format!("stderr: {d}"));
                 }
-                if sim.stdout != realr.stdout {
+                if sim_out != real_out {
                     diffs.push("stdout".into());
                 }
                 let files = |t: &Tree| -> Vec<(String, Vec<u8>)> { t.iter().filter(|(p, n)| p.starts_with("out/") && n.kind == NodeKind::File).map(|(p, n)| (p.clone(), n.content.clone())).collect() };
